@@ -2376,6 +2376,8 @@ class FST:
             raise ValueError('cannot delete root node')
         if options.get('to'):
             raise ValueError("cannot replace root node with 'to' option")
+        if code is self:  # don't allow own root to be put to self, same guard as _put_one()
+            raise ValueError('circular put detected')
         if isinstance(code, FST) and not code.a:  # same guard as _put_one(), must come before anything is changed
             raise ValueError('this FST has already been consumed or deleted')
 
